@@ -168,6 +168,10 @@ class Translator:
 
     # ------------------------------------------------------------------ expressions
     def kind(self, e):
+        for f in self.cfg.get("kind_of", []):
+            r = f(self, e)
+            if r is not None:
+                return r
         if isinstance(e, ast.Constant):
             if isinstance(e.value, bool):
                 return "bool"
@@ -196,6 +200,11 @@ class Translator:
             return self.cfg["subscripts"][key][1]
         if isinstance(e, ast.IfExp):
             return self.kind(e.body)
+        if isinstance(e, ast.ListComp):
+            return "list"
+        if isinstance(e, ast.Call) and isinstance(e.func, ast.Attribute) and isinstance(e.func.value, ast.Name) and \
+                e.func.value.id == "self" and e.func.attr in self.cfg.get("self_func_kinds", {}):
+            return self.cfg["self_func_kinds"][e.func.attr]
         if isinstance(e, ast.List):
             return "list"
         if isinstance(e, ast.Tuple):
@@ -227,6 +236,10 @@ class Translator:
         return "%d%%%s" % (n, self.num) if n >= 0 else "(%d)%%%s" % (n, self.num)
 
     def expr(self, e, scope):
+        for f in self.cfg.get("exprs", []):
+            r = f(self, e, scope)
+            if r is not None:
+                return r
         if isinstance(e, ast.Constant):
             if isinstance(e.value, bool):
                 return "true" if e.value else "false"
@@ -290,6 +303,27 @@ class Translator:
             if key[1] == "[i]":
                 return "(%s %s %s)" % (coq, self.expr(e.value, scope), self.expr(e.slice, scope))
             return "(%s %s)" % (coq, self.expr(e.value, scope))
+        if isinstance(e, ast.ListComp):
+            # [e for <target> in <iter> (if c)*]  ==  map (fun target => e) (filter (fun target => c) iter)
+            if len(e.generators) != 1 or e.generators[0].is_async:
+                raise Unsupported("list comprehension")
+            g = e.generators[0]
+            if isinstance(g.target, ast.Name):
+                names = [g.target.id]
+            elif isinstance(g.target, ast.Tuple) and all(isinstance(x, ast.Name) for x in g.target.elts):
+                names = [x.id for x in g.target.elts]
+            else:
+                raise Unsupported("comprehension target")
+            lst = self.iter_list(g.iter, scope)
+            sc = scope | set(names)
+            p = cname(names[0]) if len(names) == 1 else "'(" + ", ".join(cname(n) for n in names) + ")"
+            if g.ifs:
+                lst = "(filter (fun %s => %s) %s)" % (p, " && ".join(self.cond(c, sc) for c in g.ifs), lst)
+            return "(map (fun %s => %s) %s)" % (p, self.expr(e.elt, sc), lst)
+        if isinstance(e, ast.Call) and isinstance(e.func, ast.Attribute) and isinstance(e.func.value, ast.Name) and \
+                e.func.value.id == "self" and e.func.attr in self.cfg.get("self_funcs", {}) and not e.keywords:
+            # a call of another (already translated) value-returning method of the same object
+            return "(%s self%s)" % (self.cfg["self_funcs"][e.func.attr], "".join(" " + self.expr(a, scope) for a in e.args))
         if isinstance(e, ast.DictComp):
             # {k: v for k, v in X.items() if c}  ==  filter (fun '(k, v) => c) X   (identity comprehension only)
             if len(e.generators) != 1:
